@@ -21,7 +21,9 @@ CLAIMS = {
    text="Same chain as C01 carrying weekday and day-of-year counters (model-checked: dow=(jdn+1) mod 7, equals the "
         "proleptic Gregorian weekday after 1582, year lengths, Meeus day-of-year formula); dow() at three instants, "
         "doy(), get_doy, doy2date, leap(), year() of every civil day in the windows are validated by TLC against the "
-        "chain; sidereal time is validated against the IAU-1982 polynomial evaluated in the spec in exact fixed point.",
+        "chain; sidereal time is validated against the IAU-1982 polynomial evaluated in the spec in exact fixed point. "
+        "Apalache proves the chain's inductive invariant (and, thorough, the Gregorian weekday formula, leap rule and year "
+        "length as its consequences) for every year >= -4712.",
    note="Trusted: TLC, Calendar.tla, Fix.tla (self-tested against Python Fractions at setup), float->Fix "
         "representational conversion.",
    technique="TLA+ calendar chain + exact fixed-point IAU-1982 polynomial in the spec; trace validation by TLC",
@@ -30,7 +32,8 @@ CLAIMS = {
    text="TLC model-checks the reference calendars over their whole finite domains: the tabular-epact Easter definition "
         "against the Meeus recipe for every year -4712..10000 (Sunday, 22 March..25 April), the arithmetic Hebrew calendar "
         "(molad, four dehiyyot, year lengths, Pesach = Rosh Hashanah - 163) for years 1..3000 and the Islamic day chain AH "
-        "1..2500 against closed forms and published anchors. Every value the implementation returns (easter: all 14,713 "
+        "1..2500 against closed forms and published anchors; Apalache proves the Islamic closed form by induction for every "
+        "year, and that tabular Easter is a Sunday within 22 March..25 April for every year. Every value the implementation returns (easter: all 14,713 "
         "years; pesach: all 3,000; moslem2gregorian/gregorian2moslem: every day of the windows, thorough: all ~1.75 M days) "
         "is validated by TLC against those definitions, the Moslem conversions as day chains.",
    note="Trusted: TLC; Computus.tla (Knuth's tabular Easter, Dershowitz-Reingold Hebrew elapsed days, 30-year Islamic cycle), "
